@@ -217,7 +217,7 @@ def run(ctx):
         em = folds.element_map(prog, F, inline=pol)
         if em["err"]:
             ok, why = False, "the element-wise renaming is not recognised (%s)" % em["err"]
-        for v, is_elem in em["pairs"]:
+        for v, is_elem, _q, _e in em["pairs"]:
             n += 1
             if not (v[0] == "call" and v[1].split("::")[-1] in REN and len(v[2]) == 2):
                 ok, why = False, "an element %s is produced unrenamed" % show(v)[:60]
